@@ -151,6 +151,109 @@ def _s6_to_s9(program, res):
                     "although 'a non-null value' is what has to match (null *cells* are exempt), and {int, None} is normalised to {int}, so 'optional int' refuses None")
 
 
+def _s11_to_s14(program, res):
+    """binding corner cases of the wrapper and the cell scan (each was a demonstrated wrong answer of an earlier repair of the same code)"""
+    sr = program.cls("data_schema", "SchemaRaises")
+    ca = sr.methods.get("check_args")
+    call = sr.methods.get("__call__")
+    isn = program.func("data_schema", "_is_null")
+    res.analysed(ca, call, isn)
+    # ---- S11: the element-wise null test is applied to scalars only
+    g = cfgmod.build(isn.node)
+    param = isn.node.args.args[0].arg
+    tests = [c for c in ast.walk(isn.node) if isinstance(c, ast.Call) and (dotted_name(c.func) or "").split(".")[-1] in ("isnull", "isna")
+             and c.args and isinstance(c.args[0], ast.Name) and c.args[0].id == param]
+    if not tests:
+        raise AnalysisError("_is_null: no isnull / isna call on the parameter found")
+    for t in tests:
+        node = g.containing_node(t)
+        scalar_known = any("is_scalar" in unparse(b.cond) or "isinstance" in unparse(b.cond) for b, _l in g.guards(node.id))
+        if scalar_known:
+            res.ok("C22-S11", f"_is_null applies `{unparse(t)}` only after the value is known to be a scalar")
+        else:
+            res.fail_at("C22-S11", isn, "null-test-on-any-object",
+                        f"`{unparse(t)}` is applied to whatever the argument or cell is: for a Polars frame of mixed column types it raises DTypePromotionError, for a list of "
+                        f"frames of different shapes ValueError, for a MultiIndex NotImplementedError — the decorated function then raises although nothing of the schema is violated", t)
+    # ---- S12: an empty *args is not a missing argument; a keyword caught by **kwargs does not replace a parameter's own value
+    if "VAR_POSITIONAL" in unparse(call.node):
+        gc = None
+        for fn in ast.walk(call.node):
+            if isinstance(fn, ast.FunctionDef) and fn is not call.node and "VAR_POSITIONAL" in unparse(fn):
+                gc = fn
+        if gc is None:
+            raise AnalysisError("SchemaRaises.__call__: the wrapper function handling VAR_POSITIONAL was not found")
+        for iff in ast.walk(gc):
+            if not (isinstance(iff, ast.If) and "VAR_POSITIONAL" in unparse(iff.test)):
+                continue
+            branch = iff.body
+            inner = [x for st in branch for x in ast.walk(st) if isinstance(x, ast.If) and "len(" in unparse(x.test)]
+            if not inner:
+                res.ok("C22-S12", "the *args branch treats the tuple of values uniformly")
+                continue
+            i0 = inner[0]
+            other = [st for st in branch if st is not i0 and not any(x is i0 for x in ast.walk(st))
+                     and not (isinstance(st, ast.Assign) and isinstance(st.value, ast.Call) and isinstance(st.value.func, ast.Attribute) and st.value.func.attr in ("pop", "get"))]
+            if i0.orelse or other:
+                res.ok("C22-S12", "an empty *args is recorded as a parameter without values (nothing to check, nothing missing)")
+            else:
+                res.fail_at("C22-S12", call, "empty-varargs-reported-missing",
+                            f"the *args branch takes the parameter's name out of the named values and puts it back only under `{unparse(i0.test)}`: for def f(*frames) with a "
+                            f"specification for frames, the call f() is refused with 'expected arg frames missing' although no value violates anything", i0)
+        for iff in ast.walk(gc):
+            if isinstance(iff, ast.If) and "VAR_KEYWORD" in unparse(iff.test):
+                upd = [c for st in iff.body for c in ast.walk(st) if isinstance(c, ast.Call) and isinstance(c.func, ast.Attribute) and c.func.attr == "update"]
+                if upd:
+                    res.fail_at("C22-S12", call, "caught-keyword-replaces-parameter",
+                                f"`{unparse(upd[0])[:90]}` lets a keyword caught by **kwargs overwrite the value bound to a parameter of the same name: for def f(a, /, **kw) with "
+                                f"a: int, f('text', a=2) is accepted (2 is checked) and f(1, a='text') is refused", upd[0])
+                else:
+                    res.ok("C22-S12", "keywords caught by **kwargs are added to the named values without replacing a bound parameter")
+    # ---- S13: the positional fallback stays inside the list of names
+    by_index = [n for n in ast.walk(ca.node) if isinstance(n, ast.Subscript) and isinstance(n.value, ast.Name) and n.value.id == "arg_names" and isinstance(n.slice, ast.Name)]
+    for bi in by_index:
+        loop = None
+        for f_ in ast.walk(ca.node):
+            if isinstance(f_, ast.For) and isinstance(f_.target, ast.Name) and f_.target.id == bi.slice.id and any(x is bi for x in ast.walk(f_)):
+                loop = f_
+        if loop is None:
+            continue
+        gca = cfgmod.build(ca.node)
+        bounded = "arg_names" in unparse(loop.iter) or any("arg_names" in unparse(b.cond) and "len(" in unparse(b.cond) for b, _l in gca.guards(gca.containing_node(bi).id))
+        if bounded:
+            res.ok("C22-S13", f"`{unparse(bi)}` is read only for positions that have a name")
+        else:
+            res.fail_at("C22-S13", ca, "positional-index-unbounded",
+                        f"`{unparse(bi)}` under `for {loop.target.id} in {unparse(loop.iter)}`: a call with more positional values than parameters (not a valid call, so the binding "
+                        f"falls back to positions) raises IndexError with checking on where the undecorated function raises TypeError", bi)
+    # ---- S14: the cells of a column are read through a reader that knows a Pandas frame may hold several columns of one name
+    mod = program.module("data_schema")
+    n_scans = 0
+    for finfo in program.all_functions():
+        if finfo.module is not mod:
+            continue
+        fn = finfo.node
+        frame_names = {"d"}
+        iters = []
+        for x in ast.walk(fn):
+            if isinstance(x, ast.For):
+                iters.append(x.iter)
+            elif isinstance(x, (ast.ListComp, ast.SetComp, ast.GeneratorExp, ast.DictComp)):
+                iters.extend(g_.iter for g_ in x.generators)
+        for it in iters:
+            if isinstance(it, ast.Subscript) and isinstance(it.value, ast.Name) and it.value.id in frame_names and isinstance(it.slice, ast.Name):
+                n_scans += 1
+                res.fail_at("C22-S14", finfo, f"cells-by-label:{fn.name}",
+                            f"`for … in {unparse(it)}` in {fn.name}: for a Pandas frame with two columns of that name the selection is a frame and iterating it yields the column "
+                            f"labels — with x, x both integer, the spec {{'x': int}} is refused ('found type str') and {{'x': str}} is accepted", it)
+            elif isinstance(it, ast.Call) and isinstance(it.func, ast.Name) and it.args and isinstance(it.args[0], ast.Name) and it.args[0].id in frame_names:
+                helper = next((f2 for f2 in ast.walk(mod.tree) if isinstance(f2, ast.FunctionDef) and f2.name == it.func.id), None)
+                if helper is not None and any(isinstance(c, ast.Call) and dotted_name(c.func) == "isinstance" and "DataFrame" in unparse(c) for c in ast.walk(helper)):
+                    n_scans += 1
+                    res.ok("C22-S14", f"{fn.name} reads cells through {helper.name}, which flattens a multi-column selection")
+    if n_scans < 2:
+        raise AnalysisError(f"data_schema: only {n_scans} cell scans found (non_null_types_in_frame and _check_data_frame_matches_schema expected)")
+
+
 def _s10_member_filter(program, res):
     """a member of a set (or dict) specification may be left out only because it says nothing — it *is* None, or normalises to None.
     A truthiness test leaves out 0, 0.0, False and '' as well, which are example values and declare int, float, bool and str"""
@@ -190,6 +293,7 @@ def run(program, res, tier):
     _s6_to_s9(program, res)
     res.rule("C22-S10", "specification members are dropped only when they are (or normalise to) None")
     _s10_member_filter(program, res)
+    _s11_to_s14(program, res)
     sr = program.cls("data_schema", "SchemaRaises")
     # ---- S1
     for mname in ("check_args", "check_return"):
